@@ -525,7 +525,10 @@ func oldNodesOr(newNodes, oldNodes []dkg.Node) []dkg.Node {
 
 // judge applies the end-state oracle to the honest nodes of a run.
 func judge(x *vf.Ctx, c *vf.Check, p pcfg, o *outcome, pk string) {
-	id := p.String()
+	judgeAs(x, c, p, o, pk, p.String())
+}
+
+func judgeAs(x *vf.Ctx, c *vf.Check, p pcfg, o *outcome, pk, id string) {
 	var honest []*pnode
 	for i, nd := range o.nodes {
 		if p.fault.party >= 0 && i == p.fault.party%len(o.nodes) {
